@@ -6,6 +6,10 @@
 //!
 //!   first thread runs i step points | second thread runs j step points | first to the end | second to the end
 //!
+//! and, for the reader on the helping path, of the shape
+//!
+//!   reader i | writer j | reader k more (k = 1..4, full: 1..12) | writer to the end | reader to the end
+//!
 //! for all i, j (measured from a solo run), both orders, on the default strategy with 0 and with 8
 //! guards held by the reader (fast path / helping path) and on the fallback-only strategy. All core
 //! oracles run on every execution (ledger, conservation law at the quiescent point, node
@@ -39,6 +43,9 @@ pub struct PairCfg {
     pub first: usize,
     pub i: u64,
     pub j: u64,
+    /// 0: two cuts (first i, second j, first to the end, second to the end); k > 0: three cuts
+    /// (first i, second j, first k more, second to the end, first to the end)
+    pub k: u64,
 }
 
 pub struct PairOut {
@@ -79,9 +86,17 @@ where
     });
     sched::token_prepare(nt, cfg.exec_no, Strat::Segments, false);
     let other = 1 - cfg.first;
-    sched::set_segments(vec![(cfg.first, cfg.i), (other, cfg.j), (cfg.first, u64::MAX), (other, u64::MAX)]);
+    if cfg.k == 0 {
+        sched::set_segments(vec![(cfg.first, cfg.i), (other, cfg.j), (cfg.first, u64::MAX), (other, u64::MAX)]);
+    } else {
+        sched::set_segments(vec![(cfg.first, cfg.i), (other, cfg.j), (cfg.first, cfg.k), (other, u64::MAX), (cfg.first, u64::MAX)]);
+    }
     let desc = json!({"workload": "pair", "value": V::NAME, "strategy": S::NAME, "exec_no": cfg.exec_no, "reader_holds": cfg.hold, "read": format!("{:?}", cfg.rkind),
-        "write": format!("{:?}", cfg.wkind), "schedule": format!("thread {} runs {} step points, thread {} runs {}, then {} to the end, then {}", cfg.first, cfg.i, other, cfg.j, cfg.first, other)});
+        "write": format!("{:?}", cfg.wkind), "schedule": if cfg.k == 0 {
+            format!("thread {} runs {} step points, thread {} runs {}, then {} to the end, then {}", cfg.first, cfg.i, other, cfg.j, cfg.first, other)
+        } else {
+            format!("thread {} runs {} step points, thread {} runs {}, thread {} runs {} more, then {} to the end, then {}", cfg.first, cfg.i, other, cfg.j, cfg.first, cfg.k, other, cfg.first)
+        }});
     runner::set_current(desc.clone());
     let prep = Arc::new(AtomicU64::new(0));
     let mut handles = Vec::new();
